@@ -39,7 +39,9 @@ for u in reg.values():
 
 OPS = [(r' \+ ', ' - '), (r' - ', ' + '), (r' \* ', ' / '), (r' / ', ' * '), (r' < ', ' <= '), (r' <= ', ' < '), (r' > ', ' >= '), (r' >= ', ' > '),
        (r'\bnrows\b', 'ncols'), (r'\bncols\b', 'nrows'), (r'\b0\.5\b', '0.25'), (r'\b2\.\B', '3.'), (r'\b1\.\B', '2.'), (r'\.max\(', '.min('), (r'\.min\(', '.max('),
-       (r'\[i\]', '[j]'), (r'\[j\]', '[i]'), (r'\+ 1\b', '+ 2'), (r'- 1\b', '- 2'), (r' == ', ' != '), (r'\bi \* ', 'j * '), (r'\.\.n\b', '..(n - 1)'), (r'\btrue\b', 'false')]
+       (r'\[i\]', '[j]'), (r'\[j\]', '[i]'), (r'\+ 1\b', '+ 2'), (r'- 1\b', '- 2'), (r' == ', ' != '), (r'\bi \* ', 'j * '), (r'\.\.n\b', '..(n - 1)'), (r'\btrue\b', 'false'),
+       (r' \+= ', ' -= '), (r' -= ', ' += '), (r' \*= ', ' /= '), (r' && ', ' || '), (r' \|\| ', ' && '), (r'\[0\]', '[1]'), (r'\[1\]', '[0]'), (r'\b0\.\.', '1..'), (r'\bm1\b', 'm2'), (r'\bself\.(\w+) as i32, self\.(\w+) as i32', r'self.\2 as i32, self.\1 as i32'),
+       (r'\.exp\(\)', '.ln()'), (r'\.sqrt\(\)', ''), (r'\.abs\(\)', ''), (r'\.powi\(2\)', '.powi(3)'), (r'\bx\b', 'y'), (r'\by\b', 'x'), (r'\.rev\(\)', '')]
 
 
 def file_of(mods):
